@@ -399,7 +399,8 @@ fn variant_to_tokens(
             tokens.extend(fields
                 .named
                 .iter()
-                .map(|field| {
+                .enumerate()
+                .map(|(idx, field)| {
                     let field_ident = field.ident.as_ref().unwrap();
                     let field_ty = &field.ty;
                     let combined_ident = Ident::new(
@@ -419,7 +420,7 @@ fn variant_to_tokens(
                                 if matches {
                                     Some(#library_path::Subfield::new(
                                         self,
-                                        0.into(),
+                                        #idx.into(),
                                         |prev| {
                                             match prev {
                                                 #name::#orig_ident { #field_ident, .. } => Some(#field_ident),
@@ -502,7 +503,7 @@ fn variant_to_tokens(
                                 if matches {
                                     Some(#library_path::Subfield::new(
                                         self,
-                                        0.into(),
+                                        #idx.into(),
                                         |prev| {
                                             match prev {
                                                 #name::#orig_ident(#(#ignore_before)* this, #(#ignore_after)*) => Some(this),
